@@ -167,6 +167,28 @@ func (g *rgWorld) try(flow, redir string) (loc, def string, ok bool) {
 		g.do(sut.Req{Browser: "b1", Method: "POST", Path: "/auth/login", Form: map[string]string{"email": sut.PidPool["u2"], "password": sut.PwPool[1]}})
 		r := g.do(sut.Req{Browser: "b1", Method: "POST", Path: path("/auth/2fa/totp/validate"), Form: form(map[string]string{"code": w.TotpNow(1)})})
 		return r.Location, "/ok/login", w.In.Sess.Get("b1")["uid"] != ""
+	case "totp-f", "sms-f":
+		// as totp-q / sms-q, but the return target travels in the BODY of the first step (a hidden form field)
+		pid, pw := sut.PidPool["u2"], sut.PwPool[1]
+		if flow == "sms-f" {
+			pid, pw = sut.PidPool["u3"], sut.PwPool[2]
+		}
+		r0 := g.do(sut.Req{Browser: "b1", Method: "POST", Path: "/auth/login", Form: map[string]string{"email": pid, "password": pw, "redir": redir}})
+		next := r0.Location
+		if !strings.HasPrefix(next, "/auth/2fa/") {
+			return "", "", false
+		}
+		code := ""
+		if flow == "sms-f" {
+			if len(r0.SMSs) == 0 {
+				return "", "", false
+			}
+			code = r0.SMSs[0].Code
+		} else {
+			code = w.TotpNow(1)
+		}
+		r := g.do(sut.Req{Browser: "b1", Method: "POST", Path: next, Form: map[string]string{"code": code}})
+		return r.Location, "/ok/login", w.In.Sess.Get("b1")["uid"] != ""
 	case "totp-q", "sms-q":
 		// the return target is given to the FIRST step (login form action carries it); the browser
 		// then follows the hijack redirect, whose query repeats it, and posts the code there
@@ -222,7 +244,7 @@ func redirCmd(args []string) {
 	out := fs.String("out", "", "result file")
 	k := fs.Int("k", 2, "concretisations per string")
 	seed := fs.Int64("seed", 1, "seed")
-	flowsF := fs.String("flows", "password,password-json,otp,totp,sms,totp-q,sms-q,oauth2,oauth2-json,oauth2-error,oauth2-error-json,password-wrong", "flows")
+	flowsF := fs.String("flows", "password,password-json,otp,totp,sms,totp-q,sms-q,oauth2,oauth2-json,oauth2-error,oauth2-error-json,password-wrong,totp-f,sms-f", "flows")
 	frac := fs.Float64("frac", 1.0, "fraction of strings for the non-password flows")
 	workers := fs.Int("workers", 16, "workers")
 	fs.Parse(args)
@@ -293,7 +315,9 @@ func redirCmd(args []string) {
 							}
 						}
 						followed := loc != def
-						neverFollows := strings.HasPrefix(fl, "oauth2-error") || fl == "password-wrong"
+						// (a target given in the body of the first step of a two-step login is not carried to the second
+						//  step today; only the off-site test applies to those flows)
+						neverFollows := strings.HasPrefix(fl, "oauth2-error") || fl == "password-wrong" || fl == "totp-f" || fl == "sms-f"
 						if neverFollows {
 							// (these outcomes end on a fixed page today; were they to honour a safe target
 							// the property would still hold, so only the off-site test above applies)
